@@ -41,7 +41,7 @@ type kase struct {
 	Seed int      `json:"seed"`                // dealer seed set
 	IDs  string   `json:"ids"`                 // hash | small | big
 	Msg  int      `json:"msg"`                 // message index
-	Part string   `json:"part"`                // dkg | share-verify | group-verify | recover | gen-model | gen-round
+	Part string   `json:"part"`                // dkg | share-verify | group-verify | reuse | recover | gen-model | gen-round
 	K    int      `json:"k,omitempty"`         // threshold the node derived (informational)
 	Mem  int      `json:"member"`              // dkg / share-verify: member index
 	Ord  []int    `json:"order"`               // dkg: arrival order of dealers; recover: map insertion order (member indices); gen-*: arrival order of the first k shares
@@ -461,13 +461,39 @@ func dkgRun(g *group, i int, ord []int, ch *fw.Chooser) (*group_create.VerifNode
 
 // recoverRun: RecoverGroupSignature on a map holding the shares of members `ord` (insertion order).
 func recoverRun(g *group, mi int, ord []int, ch *fw.Chooser) result {
+	return recoverRunObjs(g, mi, ord, ch, nil)
+}
+
+// mutated returns the members of `ord` whose share object no longer serializes to the bytes it was decoded from.
+func mutated(g *group, mi int, ord []int, objs []groupsig.Signature) (who []int, now string) {
+	for _, j := range ord {
+		var b []byte
+		fw.Try(func() { b = objs[j].Serialize() })
+		if !bytes.Equal(b, g.shares[mi][j]) {
+			who = append(who, j)
+			now += fmt.Sprintf(" member %d: %x (was %x)", j, b, g.shares[mi][j])
+		}
+	}
+	return
+}
+
+// recoverRunObjs: objs == nil -> fresh share objects and the inputs must be left untouched by the
+// recovery; objs != nil -> the caller's share objects (indexed by member) are used and judged by the caller.
+func recoverRunObjs(g *group, mi int, ord []int, ch *fw.Chooser, objs []groupsig.Signature) result {
 	path := "exact"
 	if len(ord) > g.k {
 		path = "superset"
 	}
+	own := objs == nil
+	if own {
+		objs = make([]groupsig.Signature, g.n)
+		for _, j := range ord {
+			objs[j] = g.share(mi, j)
+		}
+	}
 	m := make(map[string]groupsig.Signature)
 	for _, j := range ord {
-		m[g.keys[j]] = g.share(mi, j)
+		m[g.keys[j]] = objs[j]
 	}
 	steered := false
 	if len(ord) > g.k {
@@ -497,6 +523,12 @@ func recoverRun(g *group, mi int, ord []int, ch *fw.Chooser) result {
 		return result{bad: true, sig: "C13:recover:" + path + ":ids=" + g.idkind, obs: hex.EncodeToString(got),
 			msg: fmt.Sprintf("RecoverGroupSignature(shares of members %v, k=%d) = %x, Sign(sum of dealer secrets, m) = %x", ord, g.k, got, g.expect[mi])}
 	}
+	if own {
+		if who, now := mutated(g, mi, ord, objs); len(who) > 0 {
+			return result{bad: true, sig: "C13:recover:mutates-input-share", obs: now,
+				msg: fmt.Sprintf("RecoverGroupSignature(shares of members %v, k=%d) returned the right signature but changed the caller's share objects of members %v:%s", ord, g.k, who, now)}
+		}
+	}
 	return result{outcome: "recover-" + path + ":equal", obs: hex.EncodeToString(got)}
 }
 
@@ -507,6 +539,17 @@ type generator interface {
 
 // genRun: the first k shares arrive in order `ord`, then every remaining member's share.
 func genRun(g *group, which string, mi int, ord []int, ch *fw.Chooser) result {
+	return genRunObjs(g, which, mi, ord, ch, nil)
+}
+
+func genRunObjs(g *group, which string, mi int, ord []int, ch *fw.Chooser, objs []groupsig.Signature) result {
+	own := objs == nil
+	if own {
+		objs = make([]groupsig.Signature, g.n)
+		for j := 0; j < g.n; j++ {
+			objs[j] = g.share(mi, j)
+		}
+	}
 	var gen generator
 	if which == "gen-model" {
 		gen = model.NewGroupSignGenerator(g.k)
@@ -521,14 +564,14 @@ func genRun(g *group, which string, mi int, ord []int, ch *fw.Chooser) result {
 		defer mapiter.Uninstall()
 		for _, j := range ord {
 			in[j] = true
-			_, gd := gen.AddWitnessSign(g.ids[j], g.share(mi, j))
+			_, gd := gen.AddWitnessSign(g.ids[j], objs[j])
 			flags = append(flags, gd)
 		}
 		s := gen.GetGroupSign()
 		s1 = s.Serialize()
 		for j := 0; j < g.n; j++ {
 			if !in[j] {
-				gen.AddWitnessSign(g.ids[j], g.share(mi, j))
+				gen.AddWitnessSign(g.ids[j], objs[j])
 			}
 		}
 		s = gen.GetGroupSign()
@@ -551,7 +594,87 @@ func genRun(g *group, which string, mi int, ord []int, ch *fw.Chooser) result {
 		return result{bad: true, sig: "C13:" + which + ":changed-by-late-share" + tail, obs: obs,
 			msg: fmt.Sprintf("%s: after the remaining members' shares arrived the group signature is %x, want %x", which, s2, g.expect[mi])}
 	}
+	if own {
+		all := idrev(g.n)[0]
+		if who, now := mutated(g, mi, all, objs); len(who) > 0 {
+			return result{bad: true, sig: "C13:" + which + ":mutates-input-share", obs: now,
+				msg: fmt.Sprintf("%s: right signature from members %v, but the share objects handed in by members %v were changed:%s", which, ord, who, now)}
+		}
+	}
 	return result{outcome: which + ":equal", obs: obs}
+}
+
+// reuseRun: ONE set of share objects per (group, message) is used for consecutive recoveries, as a
+// node does that keeps the received shares: for every k-subset S: recover S, recover S again, recover
+// S plus one more member, recover all n, both collectors (S first, then the late shares).  Every result
+// must be the same signature; afterwards every share must still verify under its member's public share
+// and still have its bytes.
+func reuseRun(g *group, mi int) result {
+	objs := make([]groupsig.Signature, g.n)
+	for j := 0; j < g.n; j++ {
+		objs[j] = g.share(mi, j)
+	}
+	all := idrev(g.n)[0]
+	steps := 0
+	fail := func(step string, sub []int, r result) result {
+		r.sig = "C13:reuse:" + step
+		r.msg = fmt.Sprintf("same share objects reused, k-subset %v, step %q (recovery #%d on these objects): %s", sub, step, steps, r.msg)
+		return r
+	}
+	for _, sub := range combos(g.n, g.k) {
+		type st struct {
+			name string
+			run  func() result
+		}
+		sup := append([]int{}, sub...)
+		for j := 0; j < g.n && len(sup) == len(sub); j++ {
+			in := false
+			for _, x := range sub {
+				in = in || x == j
+			}
+			if !in {
+				sup = append(sup, j)
+			}
+		}
+		seq := []st{
+			{"first-recovery", func() result { return recoverRunObjs(g, mi, sub, fw.NewReplayChooser(nil), objs) }},
+			{"second-recovery-same-subset", func() result { return recoverRunObjs(g, mi, sub, fw.NewReplayChooser(nil), objs) }},
+		}
+		if len(sup) > len(sub) {
+			seq = append(seq, st{"superset-after-subset", func() result { return recoverRunObjs(g, mi, sup, fw.NewReplayChooser(nil), objs) }})
+		}
+		if g.n > len(sup) {
+			seq = append(seq, st{"all-members-after-subset", func() result { return recoverRunObjs(g, mi, all, fw.NewReplayChooser(nil), objs) }})
+		}
+		seq = append(seq,
+			st{"round-collector", func() result { return genRunObjs(g, "gen-round", mi, sub, fw.NewReplayChooser(nil), objs) }},
+			st{"model-collector", func() result { return genRunObjs(g, "gen-model", mi, sub, fw.NewReplayChooser(nil), objs) }})
+		for _, s := range seq {
+			steps++
+			if r := s.run(); r.bad || r.outcome == "steering-ineffective" {
+				if !r.bad {
+					return r
+				}
+				return fail(s.name, sub, r)
+			}
+		}
+	}
+	for i := 0; i < g.n; i++ {
+		var ok bool
+		p, v, site := fw.Try(func() { ok = groupsig.VerifySig(g.memPub[i], g.msgs[mi], objs[i]) })
+		if p {
+			return result{bad: true, sig: "C13:panic:" + site, msg: fmt.Sprintf("panic in VerifySig after recoveries: %v", v), obs: "panic"}
+		}
+		if !ok {
+			return result{bad: true, sig: "C13:reuse:share-no-longer-verifies", obs: fmt.Sprint(i),
+				msg: fmt.Sprintf("member %d's share verified before, but not after %d recoveries that used the same object", i, steps)}
+		}
+	}
+	if who, now := mutated(g, mi, all, objs); len(who) > 0 {
+		return result{bad: true, sig: "C13:reuse:mutates-input-share", obs: now,
+			msg: fmt.Sprintf("after %d recoveries the share objects of members %v changed:%s", steps, who, now)}
+	}
+	return result{outcome: "reuse:all-equal", obs: fmt.Sprint(steps)}
 }
 
 func shareVerifyRun(g *group, mi, i int) result {
@@ -599,6 +722,8 @@ func execCase(g *group, k *kase, ch *fw.Chooser) result {
 		return recoverRun(g, k.Msg, k.Ord, ch)
 	case "gen-model", "gen-round":
 		return genRun(g, k.Part, k.Msg, k.Ord, ch)
+	case "reuse":
+		return reuseRun(g, k.Msg)
 	case "share-verify":
 		return shareVerifyRun(g, k.Msg, k.Mem)
 	case "group-verify":
@@ -886,6 +1011,13 @@ func run(c *fw.Ctx) {
 							record(c, g, ks, nil, execCase(g, &ks, nil))
 							controls(c, g, mi)
 						}
+						// --- one set of share objects reused over consecutive recoveries
+						if mine() && !expired() {
+							t0 := cpuMs()
+							ks := g.kase("reuse", mi)
+							record(c, g, ks, nil, execCase(g, &ks, nil))
+							c.Count("cpu_ms_reuse", cpuMs()-t0)
+						}
 
 						// --- B1. RecoverGroupSignature on maps of every size k..n
 						for s := k; s <= n; s++ {
@@ -983,10 +1115,11 @@ func main() {
 	fw.Main(fw.Check{
 		ID: "C13", Level: "exploration",
 		Rule: "one case = (group built by the node's own DKG: size n, dealer seed set, member-id family) x message x path " +
-			"(dkg arrival order per member | share pairing check | RecoverGroupSignature on a map of s>=k shares | model.GroupSignGenerator | round1 groupSignGenerator) " +
+			"(dkg arrival order per member | share pairing check | RecoverGroupSignature on a map of s>=k shares | model.GroupSignGenerator | round1 groupSignGenerator | " +
+			"one set of share objects reused over consecutive recoveries of every k-subset, its supersets and both collectors, then re-verified) " +
 			"x ordered member subset x explorer choice sequence (which k iteration positions the random selection keeps, start slot of every map iteration). " +
 			"Start slots beyond the occupied ones of a one-bucket map are not enumerated (same order), so counted cases differ in input or in iteration order; " +
-			"every counted case combines >= 2 shares/pieces and its result was compared byte-wise with the subset-independent expectation",
+			"every counted case combines >= 2 shares/pieces, its result was compared byte-wise with the subset-independent expectation and the share objects handed in were required to be unchanged",
 		Assumptions: []string{
 			"Go toolchain; runtime patched only at the map-iteration start position (mapiter overlay)",
 			"crypto/rand.Reader is replaced by a harness reader only while RecoverGroupSignature draws its k-selection, so that the selection is enumerated instead of sampled; base.Rand is used to predict (steer) the selection, never as oracle",
